@@ -160,6 +160,9 @@ type c01Want struct {
 	DefaultCT bool
 	// MustReport: checksum algorithm the upload was created with; GET/HEAD in checksum mode must report it
 	MustReport string
+	// Also: other objects the upload read from and must leave exactly as they were (a copy's source)
+	AlsoKey  string
+	AlsoWant *c01Want
 }
 
 var c01ContentHdrs = []string{"Content-Type", "Cache-Control", "Content-Disposition", "Content-Encoding", "Content-Language", "Expires"}
@@ -611,6 +614,23 @@ func c01Methods(thorough bool) []c01Method {
 			return resp
 		}})
 	}
+	// a copy onto itself that replaces the metadata and asks for another checksum algorithm
+	ms = append(ms, c01Method{Name: "copy:onto-itself-REPLACE+checksum-algorithm", Class: "copy", Up: func(e *c01Env, gi int, key string, body []byte, m c01Meta, w *c01Want) *gw.Resp {
+		if strings.HasSuffix(key, "/") {
+			return nil
+		}
+		sr := c01SendBody(e.gws[gi%2], "PUT", gw.ObjPath(c01Bucket, key), "", H("x-amz-meta-first", "1"), body, "signed", nil, nil)
+		if !sr.OK() {
+			return sr
+		}
+		h := append(H("x-amz-copy-source", c01Bucket+"/"+gw.URIEncode(key, false), "x-amz-metadata-directive", "REPLACE", "x-amz-tagging-directive", "REPLACE", "x-amz-checksum-algorithm", "CRC32"), m.Hdrs...)
+		if m.Tags != "" {
+			h = append(h, [2]string{"x-amz-tagging", m.Tags})
+		}
+		r := NewReq("PUT", gw.ObjPath(c01Bucket, key), "", h, nil)
+		gw.Sign(r, gw.Root, gw.SignOpts{})
+		return e.gws[(gi+1)%2].Do(r)
+	}})
 	cp("copy:COPY", false, "", "")
 	cp("copy:REPLACE", false, "REPLACE", "REPLACE")
 	cp("copy:COPY-of-multipart", true, "COPY", "COPY")
@@ -619,49 +639,60 @@ func c01Methods(thorough bool) []c01Method {
 		cp("copy:COPY-meta,REPLACE-tags", false, "COPY", "REPLACE")
 	}
 	// multipart assembled from UploadPartCopy ranges of a source
-	ms = append(ms, c01Method{Name: "mp:upload-part-copy", Class: "multipart-copy", Up: func(e *c01Env, gi int, key string, body []byte, m c01Meta, w *c01Want) *gw.Resp {
-		if len(body) < 17 {
-			return nil
-		}
-		srcKey := "upc-src"
-		sr := c01SendBody(e.gws[gi%2], "PUT", gw.ObjPath(c01Bucket, srcKey), "", nil, body, "signed", nil, nil)
-		if !sr.OK() {
-			return sr
-		}
-		path := gw.ObjPath(c01Bucket, key)
-		cr := NewReq("POST", path, "uploads", withHdrs(nil, m), nil)
-		gw.Sign(cr, gw.Root, gw.SignOpts{})
-		resp := e.gws[(gi+1)%2].Do(cr)
-		if !resp.OK() {
-			return resp
-		}
-		id := xmlFieldS(resp.Body, "UploadId")
-		cuts := [][2]int{{0, 7}, {8, len(body)/2 - 1}, {len(body) / 2, len(body) - 1}}
-		if len(body)/2-1 < 15 { // the middle part must reach the minimum part size
-			cuts = [][2]int{{0, 7}, {8, len(body) - 1}}
-		}
-		var parts [][]byte
-		var x bytes.Buffer
-		x.WriteString("<CompleteMultipartUpload>")
-		for i, c := range cuts {
-			r := NewReq("PUT", path, gw.Q("uploadId", id, "partNumber", fmt.Sprint(i+1)), H("x-amz-copy-source", c01Bucket+"/"+srcKey, "x-amz-copy-source-range", fmt.Sprintf("bytes=%d-%d", c[0], c[1])), nil)
-			gw.Sign(r, gw.Root, gw.SignOpts{})
-			pr := e.gws[(gi+i)%2].Do(r)
-			if !pr.OK() {
-				return pr
+	upc := func(name, algo string) {
+		ms = append(ms, c01Method{Name: name, Class: "multipart-copy", Up: func(e *c01Env, gi int, key string, body []byte, m c01Meta, w *c01Want) *gw.Resp {
+			if len(body) < 17 {
+				return nil
 			}
-			parts = append(parts, body[c[0]:c[1]+1])
-			fmt.Fprintf(&x, "<Part><PartNumber>%d</PartNumber><ETag>%s</ETag></Part>", i+1, xmlUnesc(xmlFieldS(pr.Body, "ETag")))
-		}
-		x.WriteString("</CompleteMultipartUpload>")
-		done := NewReq("POST", path, gw.Q("uploadId", id), nil, x.Bytes())
-		gw.Sign(done, gw.Root, gw.SignOpts{})
-		resp = e.gws[gi%2].Do(done)
-		w.ETags = []string{mpETagParts(parts)}
-		w.IsMP = true
-		w.NParts = len(parts)
-		return resp
-	}})
+			srcKey := "upc-src"
+			srcMeta := c01Meta{Name: "src", Hdrs: H("x-amz-meta-src", "yes", "Content-Type", "text/source")}
+			sr := c01SendBody(e.gws[gi%2], "PUT", gw.ObjPath(c01Bucket, srcKey), "", withHdrs(nil, srcMeta), body, "signed", nil, nil)
+			if !sr.OK() {
+				return sr
+			}
+			// the source is only read: it must read back afterwards as it was uploaded
+			w.AlsoKey, w.AlsoWant = srcKey, c01WantOf(body, srcMeta)
+			path := gw.ObjPath(c01Bucket, key)
+			ch := withHdrs(nil, m)
+			if algo != "" {
+				ch = append(ch, [2]string{"x-amz-checksum-algorithm", algo})
+			}
+			cr := NewReq("POST", path, "uploads", ch, nil)
+			gw.Sign(cr, gw.Root, gw.SignOpts{})
+			resp := e.gws[(gi+1)%2].Do(cr)
+			if !resp.OK() {
+				return resp
+			}
+			id := xmlFieldS(resp.Body, "UploadId")
+			cuts := [][2]int{{0, 7}, {8, len(body)/2 - 1}, {len(body) / 2, len(body) - 1}}
+			if len(body)/2-1 < 15 { // the middle part must reach the minimum part size
+				cuts = [][2]int{{0, 7}, {8, len(body) - 1}}
+			}
+			var parts [][]byte
+			var x bytes.Buffer
+			x.WriteString("<CompleteMultipartUpload>")
+			for i, c := range cuts {
+				r := NewReq("PUT", path, gw.Q("uploadId", id, "partNumber", fmt.Sprint(i+1)), H("x-amz-copy-source", c01Bucket+"/"+srcKey, "x-amz-copy-source-range", fmt.Sprintf("bytes=%d-%d", c[0], c[1])), nil)
+				gw.Sign(r, gw.Root, gw.SignOpts{})
+				pr := e.gws[(gi+i)%2].Do(r)
+				if !pr.OK() {
+					return pr
+				}
+				parts = append(parts, body[c[0]:c[1]+1])
+				fmt.Fprintf(&x, "<Part><PartNumber>%d</PartNumber><ETag>%s</ETag></Part>", i+1, xmlUnesc(xmlFieldS(pr.Body, "ETag")))
+			}
+			x.WriteString("</CompleteMultipartUpload>")
+			done := NewReq("POST", path, gw.Q("uploadId", id), nil, x.Bytes())
+			gw.Sign(done, gw.Root, gw.SignOpts{})
+			resp = e.gws[gi%2].Do(done)
+			w.ETags = []string{mpETagParts(parts)}
+			w.IsMP = true
+			w.NParts = len(parts)
+			return resp
+		}})
+	}
+	upc("mp:upload-part-copy", "")
+	upc("mp:upload-part-copy:created-with-crc32", "CRC32")
 	return ms
 }
 
@@ -998,7 +1029,7 @@ func C01(r *ck.Run) {
 			cases = append(cases, c01Case{Part: "directory-object-overwrite", Cfg: ci, Method: methodIdx("put:signed"), Size: 0, Key: "ow/" + k, Meta: 0, GI: ki % 2, Prev: methodIdx("put:signed"), PrevMeta: 3})
 			cases = append(cases, c01Case{Part: "directory-object-overwrite", Cfg: ci, Method: methodIdx("put:unsigned"), Size: 0, Key: "ow2/" + k, Meta: 1, GI: ki % 2, Prev: methodIdx("put:signed"), PrevMeta: 3})
 		}
-		metaMethods := []string{"put:signed", "put:stream-signed:uneven", "put:stream-unsigned-trailer:crc32c:one", "put:presigned", "mp:8+rest", "copy:REPLACE", "copy:COPY", "mp:upload-part-copy"}
+		metaMethods := []string{"put:signed", "put:stream-signed:uneven", "put:stream-unsigned-trailer:crc32c:one", "put:presigned", "mp:8+rest", "copy:REPLACE", "copy:COPY", "mp:upload-part-copy", "copy:onto-itself-REPLACE+checksum-algorithm"}
 		for mi := range metas {
 			for _, mn := range metaMethods {
 				cases = append(cases, c01Case{Part: "meta", Cfg: ci, Method: methodIdx(mn), Size: 24, Key: fmt.Sprintf("m/%d/%s", mi, mn), Meta: mi, GI: mi % 2, Prev: -1})
@@ -1106,6 +1137,15 @@ func C01(r *ck.Run) {
 						r.Add("evaluations", int64(n))
 						det["observed"] = info
 						report(c, "read back through "+[]string{"A", "B"}[gi], bad, det)
+						if w.AlsoWant != nil {
+							bad, n, info := c01Observe(g, w.AlsoKey, w.AlsoWant)
+							r.Add("evaluations", int64(n))
+							det["observed_source"] = info
+							for i := range bad {
+								bad[i] = "source object: " + bad[i]
+							}
+							report(c, "source read back through "+[]string{"A", "B"}[gi], bad, det)
+						}
 					}
 					e.objs = append(e.objs, c01Stored{Part: c.Part, Class: m.Class, Bucket: c01Bucket, Key: c.Key, Want: w, Detail: det})
 				}
